@@ -260,8 +260,81 @@ func extractCommands(c *ctx) {
 			}
 		}
 	}
+	// webui opens the cache inside its run function (its pre-run loader only opens the repository): every
+	// return that follows the registration of the repository is preceded, in its own block, by a Close of the
+	// cache (mrc / the GraphQL handler that owns it) — except the last one, reached after the signal handler
+	// has closed it.
+	var webuiReturns []string
+	if f, err := parser.ParseFile(fset, filepath.Join(c.repo, "commands/webui.go"), nil, 0); err == nil {
+		for _, d := range f.Decls {
+			fd, ok := d.(*ast.FuncDecl)
+			if !ok || fd.Body == nil || fd.Name.Name != "runWebUI" {
+				continue
+			}
+			opened := false
+			closeIn := func(n ast.Node) bool {
+				found := false
+				ast.Inspect(n, func(x ast.Node) bool {
+					if call, ok := x.(*ast.CallExpr); ok {
+						if sel, ok := call.Fun.(*ast.SelectorExpr); ok && sel.Sel.Name == "Close" {
+							if r := exprString(fset, sel.X); r == "mrc" || r == "graphqlHandler" {
+								found = true
+							}
+						}
+					}
+					return true
+				})
+				return found
+			}
+			for i, st := range fd.Body.List {
+				if strings.Contains(exprString(fset, st), "RegisterDefaultRepository") {
+					opened = true
+					continue
+				}
+				if !opened {
+					continue
+				}
+				switch n := st.(type) {
+				case *ast.IfStmt:
+					var walkIf func(is *ast.IfStmt)
+					walkIf = func(is *ast.IfStmt) {
+						for _, inner := range is.Body.List {
+							if _, isRet := inner.(*ast.ReturnStmt); isRet {
+								if closeIn(is.Body) {
+									webuiReturns = append(webuiReturns, "closed")
+								} else {
+									webuiReturns = append(webuiReturns, "NOT-CLOSED: "+exprString(fset, is.Cond))
+								}
+							}
+						}
+						if e, ok := is.Else.(*ast.IfStmt); ok {
+							walkIf(e)
+						} else if blk, ok := is.Else.(*ast.BlockStmt); ok {
+							for _, inner := range blk.List {
+								if _, isRet := inner.(*ast.ReturnStmt); isRet {
+									if closeIn(blk) {
+										webuiReturns = append(webuiReturns, "closed")
+									} else {
+										webuiReturns = append(webuiReturns, "NOT-CLOSED: else")
+									}
+								}
+							}
+						}
+					}
+					walkIf(n)
+				case *ast.ReturnStmt:
+					if i == len(fd.Body.List)-1 {
+						webuiReturns = append(webuiReturns, "final")
+					} else {
+						webuiReturns = append(webuiReturns, "NOT-CLOSED: bare return")
+					}
+				}
+			}
+		}
+	}
 	var b strings.Builder
 	b.WriteString("namespace GitBugModel.Gen.Commands\n\n")
+	fmt.Fprintf(&b, "/-- the returns of `runWebUI` after the repository's cache was opened -/\ndef webuiReturns : List String := %s\n\n", leanStrList(webuiReturns))
 	fmt.Fprintf(&b, "/-- how `RepoCache.lock` creates the lock file -/\ndef lockCreation : String := %q\ndef lockExclusive : Bool := %v\n\n", lockCreation, lockExclusive)
 	fmt.Fprintf(&b, "/-- the lock file's content: format verb of the pid, byte limit of the reader, the length test that refuses the file (operator, bound), the parser -/\ndef lockFormat : String := %q\ndef lockReadLimit : Int := %d\ndef lockRefuseOp : String := %q\ndef lockRefuseLen : Int := %d\ndef lockParser : String := %q\n\n", lockFormat, lockReadLimit, lockRefuseOp, lockRefuseLen, lockParser)
 	c.facts["lock_exclusive"] = lockExclusive
